@@ -21,8 +21,9 @@ MANIFEST = {
 		'parent, discriminators/initializers complete, conditionals in the three shipped styles, sort keys resolve, aligned variable arrays only '
 		'of abstract parents, fill arrays last in a size-prefixed struct) with theorems (Props/C15.v): wf_schema holds of both regenerated '
 		'shipped schemas (kernel computation per run); every member of every struct of a well-formed schema is classified into a supported '
-		'branch of the interpreter; a classified member never takes a Crash "Unsupported" branch on serialize or deserialize; serialize and size '
-		'of a well-formed schema never answer "Unsupported" for any value and fuel. Per generated PROGRAM: random dialect schemas '
+		'branch of the interpreter; a classified member never takes a Crash "Unsupported" branch on serialize or deserialize; serialize, size, '
+		'deserialize and factory-deserialize of a well-formed schema never answer "Unsupported" for any value, buffer and fuel (premise: the '
+		'sort-key view of the value does not). Per generated PROGRAM: random dialect schemas '
 		'(harness/dialect.py: recombinations of the shipped member forms with fresh names, widths, orders, nesting) go through the real CLI + '
 		'generator twice (identical text), the module is imported beside copies of the real ArrayHelpers/BaseValue/ByteArray, wf_schema of its '
 		'regenerated schema term is evaluated by the kernel, and the full C01 differential (serialize/size/deserialize/factory on admissible '
@@ -272,7 +273,7 @@ def run(check, unrecognised):
 		'translator harness/gens/c01.py + harness/astdump.py: each generated schema as /repo\'s own parser + post-processor expand it, printed as a Gallina term',
 		'harness/dialect.py (random schemas of the shipped dialect), harness/codec.py (admissible values, object <-> tree)',
 		'modelled, not verified: the generated codec classes themselves (tied by correspondence per generated program), CPython semantics']
-	check.assume += ['"dialect the shipped schemas use" = harness/dialect.py dialect() (13 listed restrictions, each with the code location forcing it)']
+	check.assume += ['"dialect the shipped schemas use" = harness/dialect.py dialect() (14 listed restrictions, each with the code location forcing it)']
 	check.extra['rule'] = 'N random dialect schemas of 8-25 declarations (features rotated so that every construct of the property text occurs in the batch) -> ' \
 		'real CLI + generator twice -> import -> wf_schema by the kernel -> for every class of the generated module: admissible values ' \
 		'(boundary ints, flag subsets, array lengths 0-3, both arms of conditionals) -> serialize/size/deserialize/factory, mutated encodings -> ' \
@@ -343,6 +344,69 @@ def run(check, unrecognised):
 		shutil.rmtree(scratch, ignore_errors=True)
 
 
+def parse_tree(text):
+	"""Inverse of codec.render."""
+	position = 0
+
+	def skip():
+		nonlocal position
+		while position < len(text) and text[position] == ' ':
+			position += 1
+
+	def item():
+		nonlocal position
+		skip()
+		if text[position] == '~':
+			position += 1
+			return None
+		assert text[position] == '(', text[position:position + 20]
+		position += 1
+		kind = text[position]
+		position += 1
+		if kind == 'i':
+			end = text.index(')', position)
+			value = int(text[position:end])
+			position = end + 1
+			return value
+		if kind == 'b':
+			end = text.index(')', position)
+			value = bytes.fromhex(text[position:end].strip())
+			position = end + 1
+			return value
+		if kind == 'a':
+			items = []
+			while True:
+				skip()
+				if text[position] == ')':
+					position += 1
+					return items
+				items.append(item())
+		assert kind == 's', kind
+		skip()
+		end = position
+		while text[end] not in ' )':
+			end += 1
+		name = text[position:end]
+		position = end
+		members = []
+		while True:
+			skip()
+			if text[position] == ')':
+				position += 1
+				return ('S', name, members)
+			assert text[position] == '('
+			position += 1
+			end = text.index(' ', position)
+			member = text[position:end]
+			position = end
+			value = item()
+			skip()
+			assert text[position] == ')'
+			position += 1
+			members.append((member, value))
+	return item()
+
+
 def replay(data):
 	"""Regenerates the module from the recorded schema text and repeats the recorded operation."""
 	codec.setup_paths()
@@ -367,16 +431,51 @@ def replay(data):
 		except Exception as ex:  # pylint: disable=broad-except
 			print('import fails:', type(ex).__name__, ex)
 			return 1
-		if 'value' in info:
+		failing = False
+		if 'value' in info and info.get('class'):
 			print('recorded value:', info['value'][:1500])
+			tree = parse_tree(info['value'])
+			try:
+				obj = codec.to_object(net, info['class'], tree)
+				ser = c01.impl_ser(obj)
+				print('serialize|size:', ser[:1500])
+				encoded, size_text = ser.split('|')
+				if not encoded.startswith('ok:'):
+					failing = True
+				else:
+					payload = bytes.fromhex(encoded[3:])
+					if size_text != f'ok:{len(payload)}':
+						print(f'ORACLE size: reports {size_text}, {len(payload)} bytes encoded')
+						failing = True
+					text, decoded = c01.impl_des(net, info['class'], payload)
+					if decoded is None or decoded[1] != tree:
+						print('ORACLE round trip: decode(encode v) =', text[:800])
+						failing = True
+			except Exception as ex:  # pylint: disable=broad-except
+				print('value cannot be rebuilt:', type(ex).__name__, ex)
+				failing = True
 		if 'bytes' in info and info.get('class'):
 			text, decoded = c01.impl_des(net, info['class'], bytes.fromhex(info['bytes']))
 			print('deserialize  :', text[:1500])
 			if decoded is not None:
 				print('decoded tree :', codec.render(decoded[1])[:1500])
+				parts = text.split('|')
+				if not parts[-1].startswith('ok:'):
+					print('ORACLE decode-encode: decoded value does not re-encode')
+					failing = True
+				else:
+					second_text, second = c01.impl_des(net, info['class'], bytes.fromhex(parts[-1][3:]))
+					if second is None or second[1] != decoded[1]:
+						print('ORACLE decode-encode-decode: not stable:', second_text[:600])
+						failing = True
 		if info.get('factory') and 'bytes' in info:
-			print('factory      :', c01.impl_fac(net, info['factory'], bytes.fromhex(info['bytes']))[0][:1500])
-		print('replay of', info.get('op'), 'for', info.get('class'), '-- oracle failure as recorded:', data.get('what'))
-		return 1
+			fac_text, fac = c01.impl_fac(net, info['factory'], bytes.fromhex(info['bytes']))
+			print('factory      :', fac_text[:1500])
+			if fac is None or fac[0] != info.get('class'):
+				print('ORACLE factory: does not return the concrete class')
+				failing = True
+		print('property', 'FAILS' if failing else 'holds', 'on this input with the current tree')
+		print('replay of', info.get('op'), 'for', info.get('class'), '-- as recorded:', data.get('what'))
+		return 1 if failing else 0
 	finally:
 		shutil.rmtree(scratch, ignore_errors=True)
